@@ -7,7 +7,7 @@ budget = float(sys.argv[3]) if len(sys.argv) > 3 else 300
 from ..common import REPO as _REPO
 import os
 _params = json.loads(os.environ.get("RUN1_PARAMS", "{}"))
-s = explore(mir_path(), _REPO + "/core", ("verifkit.mirsym.drivers." + mod, fn), opts={"seed": 0, "solver_timeout_ms": 30000, "params": _params}, time_budget_s=budget)
+s = explore(mir_path(os.environ.get("MIR_FEATURES", "default")), _REPO + "/core", ("verifkit.mirsym.drivers." + mod, fn), opts={"seed": 0, "solver_timeout_ms": 30000, "params": _params}, time_budget_s=budget)
 print({k: v for k, v in s.items() if k in ("paths", "ok", "aborted", "panic", "unsupported", "crash", "queries", "checks", "complete", "wall_s", "steps")})
 print("solver_s", round(s["solver_s"], 2))
 seen = set()
